@@ -414,11 +414,13 @@ theorem uDen_pos (k : Nat) (hk : k < c.K) : 0 < uDen c s.w (barNew c s i) k := b
   obtain ⟨j, hj, rfl⟩ := hx
   exact hP.upos e0 he0 j (List.mem_of_mem_erase hj) k hk
 
-theorem rawNew_eq (k : Nat) : rawNew c s i k = uNum c s.rho i k / uDen c s.w (barNew c s i) k := by
-  unfold rawNew uRaw; rw [hS.normF]; simp
+theorem rawNew_eq (k : Nat) (hk : k < c.K) : rawNew c s i k = uNum c s.rho i k / uDen c s.w (barNew c s i) k := by
+  unfold rawNew uRaw; rw [hS.normF]
+  simp only [Bool.false_eq_true, if_false]
+  rw [if_pos (uDen_pos hS s hI hP hR i e0 hi he0 hie0 k hk)]
 
 theorem rawNew_pos (k : Nat) (hk : k < c.K) : 0 < rawNew c s i k := by
-  rw [rawNew_eq hS s hI hP hR i e0 hi he0 hie0]
+  rw [rawNew_eq hS s hI hP hR i e0 hi he0 hie0 k hk]
   exact div_pos (uNum_pos hS s hI hP hR i e0 hi he0 hie0 k hk) (uDen_pos hS s hI hP hR i e0 hi he0 hie0 k hk)
 
 theorem negNew_false : negNew c s i = false := by
@@ -438,7 +440,7 @@ theorem vNew_eq (k : Nat) (hk : k < c.K) :
   have hpos := rawNew_pos hS s hI hP hR i e0 hi he0 hie0 k hk
   unfold clampHigh clampLow
   rw [hS.maxvN, hS.minv0, if_neg (not_lt.mpr hpos.le)]
-  exact rawNew_eq hS s hI hP hR i e0 hi he0 hie0 k
+  exact rawNew_eq hS s hI hP hR i e0 hi he0 hie0 k hk
 
 theorem uNode_eq : uNode c s i =
     { s with u := setRow c s.u i (vNew c s i),
